@@ -149,6 +149,8 @@ type c01 struct {
 	shape   string
 	kinds   map[string]bool
 	failed  bool
+	// leaf reads of short-reading leaves during the current boundary operation
+	leafCalls int64
 }
 
 func (c *c01) cleanupCase() {
@@ -208,6 +210,37 @@ func (c *c01) content(maxBytes int) []byte {
 	return b
 }
 
+// shortRS is a seekable leaf whose Read returns at most max bytes per call and, when eofWithData is set,
+// reports io.EOF together with the last bytes (both allowed by the io.Reader contract).
+//
+// It also counts its Read calls per boundary operation: an operation that needs more than leafStepBudget
+// leaf reads makes no progress (a correct wrapper needs at most one leaf read per byte asked for, the
+// largest content is 600 KiB) — a verdict on logical steps, not on wall-clock time.
+type shortRS struct {
+	r           *bytes.Reader
+	max         int
+	eofWithData bool
+	c           *c01
+}
+
+const leafStepBudget = 20_000_000
+
+func (s *shortRS) Read(p []byte) (int, error) {
+	s.c.leafCalls++
+	if s.c.leafCalls > leafStepBudget {
+		panic("no-progress: more than 20M leaf reads in one operation")
+	}
+	if len(p) > s.max {
+		p = p[:s.max]
+	}
+	n, err := s.r.Read(p)
+	if err == nil && n > 0 && s.eofWithData && s.r.Len() == 0 {
+		err = io.EOF
+	}
+	return n, err
+}
+func (s *shortRS) Seek(off int64, whence int) (int64, error) { return s.r.Seek(off, whence) }
+
 // genByte builds a byte-level io.ReadSeeker node.
 func (c *c01) genByte(depth int, maxBytes int) *byteNode {
 	r := c.rng
@@ -218,6 +251,14 @@ func (c *c01) genByte(depth int, maxBytes int) *byteNode {
 	switch k {
 	case 0, 1:
 		b := c.content(maxBytes)
+		if r.Intn(3) == 0 {
+			// a leaf that reads short, like a pipe or a network file: every wrapper above it must
+			// still deliver all the bytes (io.ReadFull, not a single Read)
+			mx := gen.Pick(r, []int{1, 2, 3, 7, 64, 1000})
+			ewd := r.Bool()
+			c.kinds["short-reader"] = true
+			return &byteNode{r: &shortRS{r: bytes.NewReader(b), max: mx, eofWithData: ewd, c: c}, m: b, shape: fmt.Sprintf("short%d(%d)", mx, len(b)), endExact: true}
+		}
 		c.kinds["bytes.Reader"] = true
 		return &byteNode{r: bytes.NewReader(b), m: b, shape: fmt.Sprintf("bytes(%d)", len(b)), endExact: true}
 	case 2:
@@ -493,6 +534,7 @@ func (c *c01) checkRead(op string, nd *bitNode, p []byte, n, off, m int64, err e
 
 func (c *c01) opBit(nodes *[]*bitNode) {
 	r := c.rng
+	c.leafCalls = 0
 	nd := (*nodes)[r.Intn(len(*nodes))]
 	L := nd.m.n
 	switch r.Intn(10) {
@@ -652,6 +694,7 @@ func head(b []byte) []byte {
 
 func (c *c01) opByte(nd *byteNode) {
 	r := c.rng
+	c.leafCalls = 0
 	L := int64(len(nd.m))
 	op := r.Intn(7)
 	if op == 6 {
